@@ -4,4 +4,4 @@ CONSTANTS
   Salts = {"s1", "s2"}
   Plains = {"empty", "one", "b15", "b16", "b17", "big"}
   Emit = TRUE
-INVARIANTS RoundTrip Integrity NeverWrongData Secrecy FreshNonce
+INVARIANTS RoundTrip Migration Integrity NeverWrongData Secrecy FreshNonce
